@@ -8,6 +8,7 @@ mod formats;
 mod props;
 
 fn main() {
+    std::env::set_var("NO_COLOR", "1");
     util::install_panic_hook();
     let args: Vec<String> = std::env::args().collect();
     let cmd = args.get(1).map(|s| s.as_str()).unwrap_or("");
@@ -29,9 +30,11 @@ fn main() {
         "C14" => props::c14::run(),
         "C15" => props::c15::run(),
         "C16" => props::c16::run(),
+        "C17" => props::c17::run(),
         "C18" => props::c18::run(),
         "rulegen-stats" => { rulegen_stats(); 0 }
         "try" => { try_rule(&args[2..]); 0 }
+        "try-err" => { try_err(&args[2..]); 0 }
         "try-alias" => { let r = asca::run(&[], &args[4..].to_vec(), &[args[2].clone()].into_iter().filter(|x| !x.is_empty()).collect::<Vec<_>>(), &[args[3].clone()].into_iter().filter(|x| !x.is_empty()).collect::<Vec<_>>()); println!("{:?}", r); 0 }
         "replay" => replay(args.get(2).map(|s| s.as_str()).unwrap_or("")),
         _ => { eprintln!("usage: ascamc <C01..C20> [--tier quick|thorough] | replay <file>"); 2 }
@@ -61,6 +64,7 @@ fn replay(path: &str) -> i32 {
         "C14" => props::c14::replay(&v["case"]),
         "C15" => props::c15::replay(&v["case"]),
         "C16" => props::c16::replay(&v["case"]),
+        "C17" => props::c17::replay(&v["case"]),
         "C18" => props::c18::replay(&v["case"]),
         _ => Err(format!("no replay for {pid}")),
     };
@@ -89,5 +93,18 @@ fn try_rule(a: &[String]) {
             util::Out::Ok(Err(e)) => println!("{} => Err {:?}", w, e),
             o => println!("{} => CRASH {}", w, o.crash_desc().unwrap()),
         }
+    }
+}
+
+/// `ascamc try-err "<rule>" "<into alias>" "<from alias>" word...` prints the formatted error
+fn try_err(a: &[String]) {
+    use asca::ASCAError;
+    let rules = vec![util::group(&[a[0].as_str()])];
+    let into: Vec<String> = if a[1].is_empty() { vec![] } else { vec![a[1].clone()] };
+    let from: Vec<String> = if a[2].is_empty() { vec![] } else { vec![a[2].clone()] };
+    let words: Vec<String> = a[3..].to_vec();
+    match asca::run(&rules, &words, &into, &from) {
+        Ok(v) => println!("Ok {:?}", v),
+        Err(e) => { println!("{:?}", e); let s = match &e { asca::Error::WordSyn(_) | asca::Error::WordRun(_) => e.format_word_error(&words), asca::Error::AliasSyn(_) | asca::Error::AliasRun(_) => e.format_alias_error(&into, &from), _ => e.format_rule_error(&rules) }; println!("{}", s); }
     }
 }
